@@ -34,6 +34,7 @@ EXHAUSTIVE_NOTE = ("all non-empty proper subsets for all (N<=12, batching) with 
 SHARDS = {"quick": 8, "thorough": 16}
 MIN_REACH = {
     "partial_reaps": {"quick": 400, "thorough": 6000},
+    "crops_with_an_array_output_of_exactly_one_element_among_several_outputs": {"quick": 2, "thorough": 6},
     "refusals_checked": {"quick": 400, "thorough": 6000},
     "missing_positions_checked": {"quick": 1500, "thorough": 30000},
     "full_reaps_after_partial": {"quick": 40, "thorough": 500},
@@ -54,9 +55,11 @@ TIME_BUDGET = {"quick": 400, "thorough": 3400}
 CASE_TIMEOUT = {"quick": 300, "thorough": 900}
 
 FORMS = ["raw", "runner_ds", "raw", "to_ds", "harvester_ds", "raw", "to_df"]
-KINDS = {"raw": ["float", "array:3", "bool", "str", "tuple:2", "list:2x2", "int", "dataset:2", "mixed", "iarray:3", "barray:2", "iarray:2x2"],
+KINDS = {"raw": ["float", "array:3", "bool", "str", "tuple:2", "list:2x2", "int", "dataset:2", "mixed", "iarray:3", "barray:2", "iarray:2x2",
+                 # several outputs, one of them an array of exactly ONE element (a single time step)
+                 "multi:s,a1", "multi:a1x1,s"],
          "runner_ds": ["float", "array:3", "bool", "str", "dataset:2", "int", "multi:s,t", "dict:2"],
-         "to_ds": ["float", "array:3", "dataset:2", "multi:s,a3", "multi:s,t", "dict:2"],
+         "to_ds": ["float", "array:3", "dataset:2", "multi:s,a3", "multi:s,t", "dict:2", "multi:s,a1"],
          "harvester_ds": ["float", "array:3", "int"],
          "to_df": ["float", "str", "multi:s,s", "int"]}
 
@@ -116,6 +119,8 @@ def _descr(kind):
         return "y", {"y": "t"}, {"t": [0.1, 0.2, 0.3]}
     if kind == "multi:s,a3":
         return ["y", "z"], {"z": "t"}, {"t": [0.1, 0.2, 0.3]}
+    if kind == "multi:s,a1":
+        return ["y", "z"], {"z": "t"}, {"t": [0.25]}
     if kind in ("multi:s,s", "multi:s,t"):        # (multi:s,t: a number and a text label per setting)
         return ["y", "z"], None, None
     return "y", None, None
@@ -157,6 +162,8 @@ def run_case(ctx, case):
     fn = probe.Probe(kind, name="probe")
     if kind.startswith("dict"):
         ctx.count("crops_whose_function_returns_a_plain_dict_of_outputs")
+    if kind in ("multi:s,a1", "multi:a1x1,s"):
+        ctx.count("crops_with_an_array_output_of_exactly_one_element_among_several_outputs")
     ctor = {}
     if case.get("batchsize"):
         ctor["batchsize"] = case["batchsize"]
